@@ -73,20 +73,6 @@ func c06(r *Run) {
 		// (a) after the release every path re-reads the input length (or ends in the close callbacks)
 		r.mustPass("C06.R2:reread-len-after-unlock"+key, "after unlock(processing) every path of the task re-reads the input length (or runs the close callbacks) before it exits: data published while the lock was still held is seen", ro.task, u,
 			[]Start{After(u)}, anyOf(isLenRead, closedRun), nil, onReqSetAssume, "Len() re-read on every path")
-		// (b) the first re-read that finds data leads to a new trylock
-		ss := &Search{Fn: ro.task, Stop: isLenRead}
-		firstReads := ss.Reachable([]Start{After(u)}, isLenRead)
-		r.Visited += ss.Visited
-		var starts []Start
-		nonEmpty := lenZeroFact(false)
-		for _, e := range edgesEstablishing(ro.task, nonEmpty) {
-			// the edge's condition must be computed from one of the first re-reads
-			if condUsesAny(edgeCond(e), firstReads) {
-				starts = append(starts, e)
-			}
-		}
-		r.mustPass("C06.R2:relock-when-data"+key, "when the re-read after unlock finds buffered input the task tries the processing lock again", ro.task, u,
-			starts, func(x ssa.Instruction) bool { return isKeyCall(x, ro.lock, kP) }, nil, nil, "trylock(processing) on every path from the Len()>0 edge")
 	}
 	// (b') the task exits after unlock(processing) without re-trying the lock only on an edge where it observed the
 	// input buffer EMPTY (or has no handler)
@@ -249,6 +235,15 @@ func c06(r *Run) {
 		offered := anyAtom(userClosed, noHandler, lenZeroFact(true))
 		for _, site := range findIns(ro.task, func(i ssa.Instruction) bool { return isCall(i, ro.closeCallback) }) {
 			r.guarded("C06.R4:drain-before-close:"+siteKey(w, site), "the task reaches the close callbacks only after it saw the input drained (Len()==0), or the user closed, or there is no handler: input buffered at peer close is still offered to OnRequest", ro.task, site, offered, nil, "guarded by Len()==0 | closedBy==user | onRequest==nil")
+			// ... and that observation is made while holding the lock the callbacks run under: since the lock was (re)taken,
+			// not before it was released (the poller may have published input in between)
+			starts := edgesEstablishing(ro.task, callResultAtom(ro.lock, true, kP))
+			if len(starts) > 0 {
+				ss := &Search{Fn: ro.task, CutEdge: cutOn(offered)}
+				wit := ss.Find(starts, isIns(site), false)
+				r.Visited += ss.Visited
+				r.obW("C06.R4:drain-observed-under-the-lock:"+siteKey(w, site), "after re-taking the processing lock the task looks at the input again before it runs the close callbacks: data delivered (and then the peer's close) after its last empty observation is still offered to OnRequest", ro.task, site, wit, "Len()==0 | closedBy==user | onRequest==nil observed since the re-lock")
+			}
 		}
 		// and the first OnRequest test does not depend on the closing state
 		firstReq := findIns(ro.task, func(i ssa.Instruction) bool { return userCallbackKind(i) == "OnRequest" })
@@ -298,6 +293,12 @@ func c06(r *Run) {
 		onConnUnset := cmpAtom(isOnConnLoad, isNilConst, eqRel)
 		for _, site := range findIns(fn, func(i ssa.Instruction) bool { return isCall(i, ro.onProcess) }) {
 			r.guarded("C06.R5:defer-to-onconnect", "onRequest() starts a handler task only when OnConnect has finished (state != none) or none is set; otherwise the connect task picks the data up", fn, site, anyAtom(stateNotNone, onConnUnset), nil, "guarded by state!=none | onConnect==nil")
+		}
+		// the same deferral on hang-up: while OnConnect is installed and has not started, the poller leaves teardown to the
+		// connect task (which offers the buffered input first); running the callbacks here drops a request that was sent
+		// right before the close
+		for _, site := range findIns(ro.onHup, func(i ssa.Instruction) bool { return isCall(i, ro.closeCallback) }) {
+			r.guarded("C06.R5:hup-defers-to-unstarted-onconnect", "on hang-up the poller runs the close callbacks itself only when OnConnect has started (state != none) or none is installed: otherwise input already buffered (and deferred to the OnConnect task by onRequest()) would never be offered", ro.onHup, site, anyAtom(stateNotNone, onConnUnset), nil, "guarded by state!=none | onConnect==nil")
 		}
 		// the connect task reaches the OnRequest test after OnConnect
 		for _, site := range findIns(ro.task, func(i ssa.Instruction) bool { return userCallbackKind(i) == "OnConnect" }) {
